@@ -227,8 +227,10 @@ spec fn native_ok(old: &State, new: &State) -> bool {
     &&& new.ctx.ip == old.ctx.ip
     &&& new.code@.len() == old.code@.len()
     &&& new.insn_meter == old.insn_meter
-    // a native word run by the VM does not touch the error bookkeeping
+    // a native word run by the VM does not touch the error bookkeeping, the context marks, the nesting or the pending flow
     &&& new.last_error == old.last_error
+    &&& new.ctx == old.ctx && new.nested@ == old.nested@ && new.flow_stack@ == old.flow_stack@
+    &&& new.debug_map@.len() == old.debug_map@.len()
     &&& exists|n: nat| #[trigger] rev_w(old, new, n) && rev_ext(old, new, n)
 }
 
